@@ -37,11 +37,13 @@ Label(i) ==
     [] i = 12 -> <<"C">>           [] i = 13 -> <<"Site", "A", "A1">>
     \* additional label for the second user tree  Site -> { A -> { B }, B }  (a zone name used at two depths)
     [] i = 14 -> <<"Site", "A", "B">>
+    \* a second generated-looking name under A, leaving a gap (O1 and O3 taken, O2 free: seeded change C10c)
+    [] i = 15 -> <<"A", "O3">>
 Raw(i) ==
   CASE i = 1 -> "A" [] i = 2 -> "A/B" [] i = 3 -> "A/B/C" [] i = 4 -> "A/O1" [] i = 5 -> "B" [] i = 6 -> "B/A"
-    [] i = 7 -> "O1" [] i = 8 -> "Site" [] i = 9 -> "A1" [] i = 10 -> "A/A1" [] i = 11 -> "Site/B" [] i = 12 -> "C" [] i = 13 -> "Site/A/A1" [] i = 14 -> "Site/A/B"
-RawOrder(i) == CASE i = 1 -> 1 [] i = 10 -> 2 [] i = 2 -> 3 [] i = 3 -> 4 [] i = 4 -> 5 [] i = 9 -> 6 [] i = 5 -> 7 [] i = 6 -> 8
-                 [] i = 12 -> 9 [] i = 7 -> 10 [] i = 8 -> 11 [] i = 13 -> 12 [] i = 14 -> 13 [] i = 11 -> 14
+    [] i = 7 -> "O1" [] i = 8 -> "Site" [] i = 9 -> "A1" [] i = 10 -> "A/A1" [] i = 11 -> "Site/B" [] i = 12 -> "C" [] i = 13 -> "Site/A/A1" [] i = 14 -> "Site/A/B" [] i = 15 -> "A/O3"
+RawOrder(i) == CASE i = 1 -> 1 [] i = 10 -> 2 [] i = 2 -> 3 [] i = 3 -> 4 [] i = 4 -> 5 [] i = 15 -> 6 [] i = 9 -> 7 [] i = 5 -> 8 [] i = 6 -> 9
+                 [] i = 12 -> 10 [] i = 7 -> 11 [] i = 8 -> 12 [] i = 13 -> 13 [] i = 14 -> 14 [] i = 11 -> 15
 Names == <<"s", "s_2", "s">>        \* stream i is called Names[i]: a duplicate name, and one that looks like a renamed key
 
 S == inp                            \* sequence of [lab, kind]
